@@ -6,10 +6,10 @@ set_option maxHeartbeats 1000000
 namespace CircBuf
 
 /-! ### drop_range / truncate / clear -/
-theorem tie_drop_range (rs re : Nat) (s : Sys) (h : Inv s.buf) (hnd : NonDefect (dropRange rs re s).1) :
+maybe theorem tie_drop_range (rs re : Nat) (s : Sys) (h : Inv s.buf) (hnd : NonDefect (dropRange rs re s).1) :
     Gen.drop_range (rs, re) s = dropRange rs re s := by
   tie3 h hnd [Gen.drop_range, dropRange, dropSegments]
-theorem tie_truncate_back (n : Nat) (s : Sys) (h : Inv s.buf) (hnd : NonDefect (truncateBack n s).1) :
+maybe theorem tie_truncate_back (n : Nat) (s : Sys) (h : Inv s.buf) (hnd : NonDefect (truncateBack n s).1) :
     Gen.truncate_back n s = truncateBack n s := by
   by_cases hz : s.buf.cap = 0 ∨ n ≥ s.buf.size
   · simp only [Gen.truncate_back, truncateBack, getBuf_bind, ite_run, hz, if_true]
@@ -32,7 +32,7 @@ theorem tie_truncate_back (n : Nat) (s : Sys) (h : Inv s.buf) (hnd : NonDefect (
       | ok u =>
         simp only [getBuf_run, dassert_run, pure_run]
         by_cases hc : decide (s1.buf.size = n) = true <;> simp only [hc, if_true, if_false, ite_true, ite_false] <;> rfl
-theorem tie_truncate_front (n : Nat) (s : Sys) (h : Inv s.buf) (hnd : NonDefect (truncateFront n s).1) :
+maybe theorem tie_truncate_front (n : Nat) (s : Sys) (h : Inv s.buf) (hnd : NonDefect (truncateFront n s).1) :
     Gen.truncate_front n s = truncateFront n s := by
   by_cases hz : s.buf.cap = 0 ∨ n ≥ s.buf.size
   · simp only [Gen.truncate_front, truncateFront, getBuf_bind, ite_run, hz, if_true]
@@ -53,7 +53,7 @@ theorem tie_truncate_front (n : Nat) (s : Sys) (h : Inv s.buf) (hnd : NonDefect 
       | ok u =>
         simp only [getBuf_run, dassert_run, pure_run]
         by_cases hc : decide (s1.buf.size = n) = true <;> simp only [hc, if_true, if_false, ite_true, ite_false] <;> rfl
-theorem tie_clear (s : Sys) (h : Inv s.buf) (hnd : NonDefect (clear s).1) : Gen.clear s = clear s := by
+maybe theorem tie_clear (s : Sys) (h : Inv s.buf) (hnd : NonDefect (clear s).1) : Gen.clear s = clear s := by
   have hnd' : NonDefect (truncateBack 0 s).1 := hnd
   simp only [Gen.clear, clear, bind_run, pure_run, tie_truncate_back 0 s h hnd']
   cases truncateBack 0 s with
